@@ -34,6 +34,8 @@ type LockType struct {
 	// Mutable[i] is true when field i is stored to outside the initialisation of a
 	// freshly allocated instance. Immutable slots may be read without the lock.
 	Mutable []bool
+	// Atomic[i]: field i is reached through sync/atomic (by type or by call).
+	Atomic []bool
 }
 
 func (lt *LockType) FieldName(i int) string { return lt.Struct.Field(i).Name() }
@@ -126,7 +128,7 @@ func BuildTables(p *core.Program) *Tables {
 			for i := 0; i < st.NumFields(); i++ {
 				if k, rw, ok := lockFieldKind(st.Field(i).Type()); ok {
 					t.Lock[tn] = &LockType{Named: named, Name: tn.Name(), Pkg: pk.Name, Struct: st,
-						LockField: i, Kind: k, RW: rw, Mutable: make([]bool, st.NumFields())}
+						LockField: i, Kind: k, RW: rw, Mutable: make([]bool, st.NumFields()), Atomic: make([]bool, st.NumFields())}
 					break
 				}
 			}
@@ -228,8 +230,41 @@ func (t *Tables) IfaceImpls(ty types.Type) []*LockType {
 // scanStores computes Mutable slots of lock-bearing/outer types and the set of
 // immutable struct types: a field store counts as initialisation only when its
 // base is an Alloc in the same function (composite literal / new).
+func isAtomicType(ty types.Type) bool {
+	n, ok := ty.(*types.Named)
+	return ok && n.Obj().Pkg() != nil && n.Obj().Pkg().Path() == "sync/atomic"
+}
+
 func (t *Tables) scanStores() {
 	written := map[*types.TypeName]bool{}
+	for _, lt := range t.Lock {
+		for i := 0; i < lt.Struct.NumFields(); i++ {
+			if isAtomicType(lt.Struct.Field(i).Type()) {
+				lt.Atomic[i] = true
+				lt.Mutable[i] = true
+			}
+		}
+	}
+	for _, fn := range t.P.Funcs {
+		for _, b := range fn.Blocks {
+			for _, in := range b.Instrs {
+				c, ok := in.(ssa.CallInstruction)
+				if !ok || c.Common().IsInvoke() || len(c.Common().Args) == 0 {
+					continue
+				}
+				f := c.Common().StaticCallee()
+				if f == nil || f.Pkg == nil || f.Pkg.Pkg.Path() != "sync/atomic" {
+					continue
+				}
+				if fa, ok := c.Common().Args[0].(*ssa.FieldAddr); ok {
+					if lt := t.LockTypeOf(fa.X.Type()); lt != nil {
+						lt.Atomic[fa.Field] = true
+						lt.Mutable[fa.Field] = true
+					}
+				}
+			}
+		}
+	}
 	for _, fn := range t.P.Funcs {
 		for _, b := range fn.Blocks {
 			for _, in := range b.Instrs {
